@@ -31,6 +31,7 @@ import (
 	"github.com/segmentio/kafka-go/compress"
 	"github.com/segmentio/kafka-go/protocol"
 	"github.com/segmentio/kafka-go/protocol/fetch"
+	"github.com/segmentio/kafka-go/protocol/metadata"
 	"github.com/segmentio/kafka-go/protocol/produce"
 
 	"kvharness/internal/gen"
@@ -244,6 +245,7 @@ func produceProto(version int8, codec int, rs []rec) ([]byte, error) {
 }
 
 type captureRT struct {
+	requests   int
 	apiVersion int16
 	set        []byte
 	err        error
@@ -253,7 +255,12 @@ type captureRT struct {
 // the record set is cut out of the serialized request frame.
 func (c *captureRT) RoundTrip(ctx context.Context, addr net.Addr, req kafka.Request) (kafka.Response, error) {
 	switch m := req.(type) {
+	case *metadata.Request:
+		return &metadata.Response{Brokers: []metadata.ResponseBroker{{NodeID: 1, Host: "fake", Port: 9092}}, ControllerID: 1,
+			Topics: []metadata.ResponseTopic{{Name: "t", Partitions: []metadata.ResponsePartition{{PartitionIndex: 0, LeaderID: 1,
+				ReplicaNodes: []int32{1}, IsrNodes: []int32{1}}}}}}, nil
 	case *produce.Request:
+		c.requests++
 		m.Prepare(c.apiVersion)
 		var buf bytes.Buffer
 		if c.err = protocol.WriteRequest(&buf, c.apiVersion, 1, "c", m); c.err == nil {
@@ -282,6 +289,76 @@ func produceClient(apiVersion int16, codec int, rs []rec) ([]byte, error) {
 		return nil, errors.New("record set not found in request frame")
 	}
 	return rt.set, rt.err
+}
+
+// produceWriter: kafka.Writer → writerRecords → protocol.RecordSet, one batch holding all the messages
+// (BatchSize = number of messages), the produce.Request serialised as the Transport would.
+func produceWriter(apiVersion int16, codec int, rs []rec) ([]byte, error) {
+	rt := &captureRT{apiVersion: apiVersion}
+	w := &kafka.Writer{Addr: kafka.TCP("fake:9092"), Topic: "t", Transport: rt, BatchSize: len(rs), BatchBytes: 1 << 30,
+		BatchTimeout: 200 * time.Millisecond, RequiredAcks: kafka.RequireAll, Compression: compress.Compression(codec), MaxAttempts: 1}
+	msgs := make([]kafka.Message, len(rs))
+	for i, r := range rs {
+		msgs[i] = kafka.Message{Time: r.t, Key: r.key, Value: r.value, Headers: r.hdrs}
+	}
+	ctx, cancel := context.WithTimeout(context.Background(), 20*time.Second)
+	defer cancel()
+	err := w.WriteMessages(ctx, msgs...)
+	w.Close()
+	if err != nil {
+		return nil, err
+	}
+	if rt.requests != 1 {
+		return nil, fmt.Errorf("%d produce requests instead of one batch", rt.requests)
+	}
+	if rt.err == nil && rt.set == nil {
+		return nil, errors.New("record set not found in request frame")
+	}
+	return rt.set, rt.err
+}
+
+// shapeRecs: one batch in which every ordered pair of the 9 key×value shapes (null / empty / non-empty each)
+// occurs adjacently (an Eulerian circuit of the complete digraph with loops on 9 shapes: 82 records), so that
+// state carried from one record to the next shows.
+func shapeRecs(r *rand.Rand, headers bool) []rec {
+	const S = 9
+	next := make([][]int, S)
+	for a := 0; a < S; a++ {
+		next[a] = r.Perm(S)
+	}
+	var circuit []int
+	stack := []int{r.Intn(S)}
+	for len(stack) > 0 {
+		v := stack[len(stack)-1]
+		if len(next[v]) > 0 {
+			u := next[v][0]
+			next[v] = next[v][1:]
+			stack = append(stack, u)
+		} else {
+			circuit = append(circuit, v)
+			stack = stack[:len(stack)-1]
+		}
+	}
+	mk := func(kind int) []byte {
+		switch kind {
+		case 0:
+			return nil
+		case 1:
+			return []byte{}
+		}
+		return gen.Bytes(r, 1+r.Intn(9))
+	}
+	base := time.Unix(1600000000+int64(r.Intn(1000000)), int64(r.Intn(1000000000)))
+	rs := make([]rec, len(circuit))
+	for i, sh := range circuit {
+		rs[i].key, rs[i].value = mk(sh/3), mk(sh%3)
+		rs[i].t = base.Add(time.Duration(i*700) * time.Microsecond)
+		rs[i].ms = rs[i].t.UnixNano() / 1000000
+		if headers && r.Intn(3) == 0 {
+			rs[i].hdrs = genHdrs(r)
+		}
+	}
+	return rs
 }
 
 // produceSetOf cuts the record set out of a produce request frame (v2..v8, one topic, one partition);
@@ -922,6 +999,8 @@ func produceCase(r *rand.Rand, path string, version int, codec int, rs []rec, to
 			set, err = produceProto(int8(version), codec, rs)
 		case "client":
 			set, err = produceClient(map[int]int16{1: 2, 2: []int16{3, 7, 8}[r.Intn(3)]}[version], codec, rs)
+		case "writer":
+			set, err = produceWriter(map[int]int16{1: 2, 2: []int16{3, 7, 8}[r.Intn(3)]}[version], codec, rs)
 		case "conn":
 			pv := map[int]int16{1: 2, 2: []int16{3, 7}[r.Intn(2)]}[version]
 			set, err = produceConn(pv, codec, rs)
@@ -1014,6 +1093,18 @@ func main() {
 			produceCase(r, "client", 2, codec, genRecs(r, 1+r.Intn(5), 0, true), true)
 			produceCase(r, "client", 1, codec, genRecs(r, 1+r.Intn(5), 0, false), true)
 			produceCase(r, "client", 2, codec, d6Recs(), true)
+		}
+		// kafka.Writer path, and on every path one batch with every adjacent order of null/empty/non-empty shapes
+		for _, version := range []int{1, 2} {
+			for codec := 0; codec <= 4; codec++ {
+				produceCase(r, "writer", version, codec, d6Recs(), true)
+				for k := 0; k < rounds; k++ {
+					produceCase(r, "writer", version, codec, genRecs(r, 1+r.Intn(6), k%2, version == 2), k%2 == 0)
+				}
+				for _, path := range []string{"proto", "client", "writer", "conn"} {
+					produceCase(r, path, version, codec, shapeRecs(r, version == 2), false)
+				}
+			}
 		}
 		// many small records in one batch (offset deltas and varint widths beyond one byte)
 		produceCase(r, "proto", 2, 0, genRecs(r, 150, 0, false), false)
